@@ -52,7 +52,7 @@ class KDTree:
             Exception: fails if the points are not of the correct (N,d) shape.
         """
         
-        points = np.array(points)
+        points = np.array(points, dtype=float) # own float copy: with the caller's dtype (uint8, int8, float32, bool...) coordinate differences wrap around or lose precision
         if len(points.shape)!=2:
             raise Exception("Expected an array of points of shape (N,dim)")
         self.points = points
